@@ -3595,6 +3595,8 @@ func (a *Agent) TaskDispatch(RequestID uint32, CommandID uint32, Parser *parser.
 				Message["Message"] = "Failed to inject reflective dll: " + String
 			}
 
+			// the status is the only reply the agent sends for this task
+			a.RequestCompleted(RequestID)
 			teamserver.AgentConsole(a.NameID, HAVOC_CONSOLE_MESSAGE, Message)
 		} else {
 			logger.Debug(fmt.Sprintf("Agent: %x, Command: COMMAND_INJECT_DLL, Invalid packet", AgentID))
@@ -4645,6 +4647,7 @@ func (a *Agent) TaskDispatch(RequestID uint32, CommandID uint32, Parser *parser.
 					} else {
 						Output["Type"] = typeError
 						Output["Message"] = "Failed to list existing tokens"
+						a.RequestCompleted(RequestID)
 					}
 				} else {
 					logger.Debug(fmt.Sprintf("Agent: %x, Command: COMMAND_TOKEN - DEMON_COMMAND_TOKEN_FIND_TOKENS, Invalid packet", AgentID))
@@ -6337,6 +6340,7 @@ func (a *Agent) TaskDispatch(RequestID uint32, CommandID uint32, Parser *parser.
 							"Type":    "Erro",
 							"Message": "Failed to list all kerberos tickets",
 						}
+						a.RequestCompleted(RequestID)
 					}
 				} else {
 					logger.Debug(fmt.Sprintf("Agent: %x, Command: COMMAND_KERBEROS  - KERBEROS_COMMAND_KLIST, Invalid packet", AgentID))
